@@ -71,19 +71,21 @@ def normalizeIndex (dims : List String) (ui : UserIndex) : Except Err (List Ix) 
     | .axisArg ix k => fromDict [(k, ix)]
   expandedIndexer key dims.length
 
+/-- a positional index must be an integer -/
+def labelToInt (l : Label) : Except Err Int :=
+  match l with
+  | .num q => if q.den == 1 then .ok q.num else .error .index
+  | _ => .error .index
+
 /-- position-mode conversion of a user index to what NumPy receives -/
 def ixToRaw (ix : Ix) : Except Err RawIx :=
-  let toInt (l : Label) : Except Err Int :=
-    match l with
-    | .num q => if q.den == 1 then .ok q.num else .error .index
-    | _ => .error .index
   match ix with
-  | .scalar v => do let i ← toInt v; pure (.int i)
-  | .list vs => do let l ← vs.mapM toInt; pure (.ints l)
+  | .scalar v => do let i ← labelToInt v; pure (.int i)
+  | .list vs => do let l ← vs.mapM labelToInt; pure (.ints l)
   | .mask m => pure (.mask m)
   | .slice s e st => do
-      let s' ← match s with | none => pure none | some v => some <$> toInt v
-      let e' ← match e with | none => pure none | some v => some <$> toInt v
+      let s' ← match s with | none => pure none | some v => some <$> labelToInt v
+      let e' ← match e with | none => pure none | some v => some <$> labelToInt v
       pure (.slice s' e' st)
   | .ellipsis => .error .other
 
